@@ -212,3 +212,14 @@ Print Assumptions c10_ticket_history.
 
 Example c10_ticket_history_starts_somewhere : forall name D P, dom_ok name D P [].
 Proof. intros name D P e Hin. destruct Hin. Qed.
+
+(* ---- what a save writes depends on that save alone ---- *)
+From V.Gen Require Wiring.
+
+(* lz4Compress REGENERATED on this run creates its buffer and writer inside the call and returns a copy read out of the
+   buffer: the encoded value handed to the store is a function of the session being saved, not of other saves in flight
+   (the histories of c10_history are per browser; this is what lets them be considered one at a time) *)
+Theorem c10_compression_is_per_call :
+  Wiring.lz4_compress_state = [s "buf := new(bytes.Buffer)"; s "zw := lz4.NewWriter(nil)"; s "zw.Reset(buf)"; s "compressed, err := io.ReadAll(buf)"].
+Proof. vm_compute. reflexivity. Qed.
+Print Assumptions c10_compression_is_per_call.
